@@ -172,6 +172,13 @@ func checkCmd(args []string) {
 		for k := range ledger.Unproved {
 			e.skipObl[k] = true
 		}
+		// an obligation named by an open finding is always solved: its KNOWN-FINDING line is printed while it
+		// still fails and disappears once the defect is repaired
+		for _, f := range loadFindings(*vdir) {
+			if f.Status == "open" && f.Property == *prop {
+				delete(e.skipObl, f.Obligation)
+			}
+		}
 	}
 	roots := sc.Roots(e)
 	fns := roots
